@@ -3358,38 +3358,48 @@ func (p *Posix) DeleteObject(ctx context.Context, input *s3.DeleteObjectInput) (
 				}
 			}
 
+			// The delete marker is a new, empty file that carries the marker
+			// flag and its own version id (none, i.e. "null", while
+			// versioning is suspended). It is renamed over the current
+			// version, which was archived above: at every moment the key
+			// shows either that version or the marker. (Turning the current
+			// file into the marker attribute by attribute had states in
+			// between in which the marker carried the id of the version it
+			// hides, and hid its archived copy.)
+			mf, err := p.openTmpFile(filepath.Join(bucket, metaTmpDir),
+				bucket, object, 0, acct, skipFalloc, p.forceNoTmpFile)
+			if err != nil {
+				return nil, fmt.Errorf("open tmp file: %w", err)
+			}
+			defer mf.cleanup()
+			p.dropStaleSidecarAttrs(bucket, object)
+
 			versionId := nullVersionId
 			if p.isBucketVersioningEnabled(vStatus) {
-				// Generate & set a unique versionId for the delete marker.
-				// It is set before the object is marked: a delete marker
-				// that still carried the id of the archived version would
-				// hide that version (interrupted here, the object stays
-				// readable, under the new id, next to its archived version)
 				versionId = ulid.Make().String()
-				err = p.meta.StoreAttribute(nil, bucket, object, versionIdKey, []byte(versionId))
+				err = p.meta.StoreAttribute(mf.File(), bucket, object, versionIdKey, []byte(versionId))
 				if err != nil {
 					return nil, fmt.Errorf("set versionId: %w", err)
 				}
 			}
-			verifhook.At("posix.deleteobject.marker.between")
-
-			// Mark the object as a delete marker
-			err = p.meta.StoreAttribute(nil, bucket, object, deleteMarkerKey, []byte{})
+			err = p.meta.StoreAttribute(mf.File(), bucket, object, deleteMarkerKey, []byte{})
 			if err != nil {
 				return nil, fmt.Errorf("set delete marker: %w", err)
+			}
+			verifhook.At("posix.deleteobject.marker.between")
+
+			err = mf.link()
+			if err != nil {
+				return nil, fmt.Errorf("link delete marker: %w", err)
 			}
 			verifhook.At("posix.deleteobject.marker.set")
 
 			if !p.isBucketVersioningEnabled(vStatus) {
-				// the delete marker becomes the null version: it replaces
-				// a null version kept in the versioning directory
+				// the delete marker is the null version now: a null version
+				// kept in the versioning directory is replaced by it
 				err = p.deleteNullVersionIdObject(bucket, object)
 				if err != nil {
 					return nil, fmt.Errorf("delete null version: %w", err)
-				}
-				err = p.meta.DeleteAttribute(bucket, object, versionIdKey)
-				if err != nil && !errors.Is(err, meta.ErrNoSuchKey) {
-					return nil, fmt.Errorf("delete versionId: %w", err)
 				}
 			}
 
